@@ -421,6 +421,10 @@ class SimDevice:
         if st["phase"] == "hello":
             # client hello frame (empty in practice)
             st["phase"] = "handshake"
+            if self.cfg.get("silent_noise") == "hello":
+                w.fire("silence_noise_hello")
+                st["phase"] = "mute"
+                return
             sel = self.cfg.get("noise_selector", 1)
             hello = bytes([sel])
             if self.cfg.get("noise_hello_name", True):
@@ -449,6 +453,10 @@ class SimDevice:
                 st["phase"] = "dead"
                 if self.cfg.get("close_after_reject", True):
                     conn.device_close("fin")
+                return
+            if self.cfg.get("silent_noise") == "handshake":
+                w.fire("silence_noise_handshake")
+                st["phase"] = "mute"
                 return
             msg2 = resp.write_msg2()
             st["noise"] = resp
@@ -621,7 +629,7 @@ class SimDevice:
         if out:
             conn.device_send(out, metas, latency)
             for m in metas:
-                self.world.rec("dev_tx", conn=conn.cid, idx=m["idx"], name=m["name"], type=m.get("type"), payload=m.get("payload", b""), tampered=m.get("tampered"))
+                self.world.rec("dev_tx", conn=conn.cid, idx=m["idx"], name=m["name"], type=m.get("type"), payload=m.get("payload", b""), tampered=m.get("tampered"), end=m["end"], kind=m.get("kind"))
 
     def _push(self, conn: SimConn, b: bytes, metas: list[dict], latency: float | None = None) -> None:
         off = conn.d2c_off
@@ -629,7 +637,7 @@ class SimDevice:
             m["end"] = off + len(b)
         conn.device_send(b, metas, latency)
         for m in metas:
-            self.world.rec("dev_tx", conn=conn.cid, idx=m["idx"], name=m["name"], type=m.get("type"), payload=m.get("payload", b""), tampered=m.get("tampered"))
+            self.world.rec("dev_tx", conn=conn.cid, idx=m["idx"], name=m["name"], type=m.get("type"), payload=m.get("payload", b""), tampered=m.get("tampered"), end=m["end"], kind=m.get("kind"))
 
     def _emit_raw(self, conn: SimConn, b: bytes, meta: dict, latency: float | None = None) -> None:
         b2, meta = self._tamper(conn, b, meta)
